@@ -13,6 +13,12 @@ from props.core_gen import Gen, systematic_types, type_stats, type_depth, LEAVES
 from props.c05 import canon_show, coq_eval_groups
 from props.c03 import has_nested_data, has_auto_tag
 
+
+def rt_cstr(x):
+    """Gallina pstr literal of an ASCII text without quotes / backslashes"""
+    assert x.isascii() and '"' not in x and '\\' not in x
+    return '(S "%s")' % x
+
 META = {
     'id': 'C01',
     'title': 'Dump-then-load is the identity (default engine, every text format)',
@@ -20,16 +26,22 @@ META = {
     'technique': 'Coq proof (induction over the type grammar, refinement through the dump dispatch and every parser) on hand-written '
                  'Gallina models of dumpers.py and loaders.py/parsers.py + differential correspondence + direct round-trip predicates',
     'design_ref': 'DESIGN.md section 4 C01',
-    'theorems': ['C01_roundtrip_partial', 'C01_domain_conforms', 'C01_z_inverse', 'C01_keys_none', 'C01_keys_canonical',
+    'theorems': ['C01_roundtrip_partial', 'C01_roundtrip_typeddict', 'C01_roundtrip_tagged_union', 'C01_union_ok_tagged',
+                 'C01_roundtrip_any_containers', 'C01_any_exact', 'C01_any_json',
+                 'C01_domain_conforms', 'C01_z_inverse', 'C01_keys_none', 'C01_keys_canonical',
                  'C01_refuted_neg_timedelta'],
     'tables': ['CoreDumpHooks', 'LetterCase'],
     'level_text': ('Proved in Coq: for EVERY class model and EVERY conforming value of the round-trip domain rtd (scalars, Optional, '
                    'Unions distinguishable by wire type, list/set/frozenset/deque/tuple/dict/defaultdict/OrderedDict at every nesting, '
-                   'Enum, UUID, Decimal, Path, date/datetime/time/timedelta, NamedTuple, Literal, nested dataclasses, Any with scalars), every key '
-                   'transform and every stdlib behaviour satisfying the stated leaf laws, load(dump(v)) = v in the model; keys of canonical '
+                   'Enum, UUID, Decimal, Path, date/datetime/time/timedelta, NamedTuple, Literal, nested dataclasses, TypedDict (total / non-total, '
+                   'Required / NotRequired keys, optional keys present or absent, values of any type of the grammar), dataclasses inside Unions '
+                   'reached by their tag (explicit or auto-assigned, any member count, injective tag assignment, field coercions included), '
+                   'Any holding exactly the values the dumper maps to themselves: JSON scalars and list / tuple / dict / OrderedDict / NamedTuple of '
+                   'them at every nesting - proved in both directions: every other runtime value under Any does not come back), every key '
+                   'transform and tag key, and every stdlib behaviour satisfying the stated leaf laws, load(dump(v)) = v in the model; keys of canonical '
                    'snake_case names resolve back under all five transforms and arbitrary distinct identifiers under NONE. Not proved '
-                   '(correspondence + direct predicate only): TypedDict, tagged dataclasses inside Unions, containers under Any, the text '
-                   'formats (JSON/YAML/TOML libraries are oracles). Negative timedelta (F3) is refuted by a witness and excluded by the leaf law.'),
+                   '(correspondence + direct predicate only): the text formats (JSON/YAML/TOML libraries are oracles), untyped namedtuple. '
+                   'Negative timedelta (F3) is refuted by a witness and excluded by the leaf law.'),
     'level_note': ('Trusted: Coq kernel + vm_compute; the two hand-written models; leaf laws of stdlib/pytimeparse (audited on every run on the '
                    'generated leaves); PyYAML/tomllib/tomli_w/json decide which payloads a format can carry. bytes/bytearray are outside C01 '
                    '(base64 text does not load back in the default engine: F4, by design of the property).'),
@@ -42,8 +54,13 @@ META = {
              'huge ints, a 45-string zoo (line endings incl. \\r\\n, control chars, astral/combining unicode, quotes, whitespace, look-alikes of numbers/dates/bools/null) swept '
              'completely through field / list element / dict key / dict value x every root kind; Optional and Union elements laid out None-first, None-in-the-middle, complex-first; '
              'every dict-like container with the leaf as key. Histories: half of the models with nested dataclasses dump every nested instance on its own before the owner\'s first dump (default key spelling only: F10). '
+             'Any positions hold nested JSON containers (list / dict of scalars to depth 3: through every format) and values only the dict level can carry (tuple, OrderedDict, int / float / bool / None keys: fromdict(asdict) only); '
+             'TypedDicts with 0..3 required x 0..3 non-required keys, spelled total=True + NotRequired or total=False + Required, optional keys all absent .. all present, the leaf at a required or a non-required key; '
+             'tagged Unions of 1..4 dataclass members (explicit tags, auto-assigned tags, mixed) beside 0..2 scalar / list / None members, the leaf inside any member, 30% under a custom tag_key. '
              'Non-trivial: at least one container/union/class layer or non-JSON leaf. Distinct: distinct (type label | value digest | transform).'),
-    'trusted_base': ['models coq/model/CoreDump.v, CoreLoad.v; domain coq/model/CoreRT.v',
+    'trusted_base': ['models coq/model/CoreDump.v, CoreLoad.v; domain coq/model/CoreRT.v (rtd; anyv / json_any for Any positions; union_ok incl. tagged dataclass members)',
+                     'a plain dict is represented with its keys in one order (TypedDict: required keys, then the present optional keys, in declaration order); == on dicts ignores order and so does the canonical text of the harness',
+                     'tags are non-empty texts (an empty Meta.tag is falsy in the library and means "no tag"; the model would read Some "" as a tag)',
                      'harness/impl/core_rt.py (object <-> Gallina term / canonical text), harness/impl/c05.py oracle_table()'],
     'assumptions': ['leaf laws (hypothesis leaf_ok): UUID(u.hex)==u, Decimal(str(d))==d, Path(str(p))==p, fromisoformat(isoformat())==id for date/datetime/time '
                     'and isoformat() contains no "Z", timedelta(seconds=pytimeparse.parse(str(td)))==td (false for td<0 with a time part: F3)',
@@ -122,10 +139,119 @@ def all_canonical(ty):
     return ok and all(all_canonical(x) for x in subs)
 
 
+class Gen01(Gen):
+    """C01's own generator dimensions on top of core_gen.Gen (nothing in the shared generator changes):
+    * values at Any positions: nested JSON containers (list / dict with str keys of scalars, to depth 3) - the set json_any of the
+      Coq domain - and, flagged 'anyw', values only the dict-level round trip can carry (tuple, OrderedDict, non-str dict keys: anyv);
+    * TypedDict: 0..3 required and 0..3 non-required keys, the leaf at a required or a non-required key, spelled total=True +
+      NotRequired or total=False + Required, optional keys present with a per-type probability (incl. all absent / all present);
+    * tagged Unions: 1..4 tagged dataclass members (explicit Meta.tag, or class names under auto_assign_tags), the leaf inside any of
+      them, beside 0..2 scalar / list / None members (never a dict member: union_ok), members shuffled."""
+
+    def scalar_any(self):
+        r = self.r
+        if r.random() < 0.35:
+            return super().scalar_any()
+        return self.any_value(r.choice([1, 2, 3]), r.random() < 0.3)
+
+    def any_value(self, depth, wide):
+        r = self.r
+        if depth <= 0 or r.random() < 0.25:
+            return r.choice([{'v': 'none'}, {'v': 'bool', 'x': r.random() < 0.5}, {'v': 'int', 'x': str(r.choice([0, 1, -7, 2 ** 70]))},
+                             {'v': 'float', 'x': r.choice([1.5, -0.0, 1e300, 0.1]).hex()},
+                             {'v': 'str', 'x': r.choice(['', 'a', 'x y', '\u00e9', '1', 'null', 'true', '2020-01-01', 'k0'])}])
+        n = r.choice([0, 1, 2, 3])
+        if r.random() < 0.5:
+            kind = 'tuple' if wide and r.random() < 0.4 else 'list'
+            v = {'v': 'seq', 'k': kind, 'xs': [self.any_value(depth - 1, wide) for _ in range(n)]}
+            if kind == 'tuple': v['anyw'] = True
+            return v
+        keys = [{'v': 'str', 'x': x} for x in r.sample(['k0', 'k1', 'Key Two', '', 'snake_key', 'camelKey', '__tag__', '1'], n)]
+        v = {'v': 'dict', 'k': 'dict', 'kvs': []}
+        if wide and n and r.random() < 0.5:
+            keys = r.sample([{'v': 'int', 'x': '2'}, {'v': 'int', 'x': '-1'}, {'v': 'bool', 'x': True}, {'v': 'none'},
+                             {'v': 'float', 'x': (1.5).hex()}, {'v': 'str', 'x': 'k0'}], n)
+            v['anyw'] = True
+        if wide and r.random() < 0.3:
+            v['k'] = 'ordered'; v['anyw'] = True
+        v['kvs'] = [[k, self.any_value(depth - 1, wide)] for k in keys]
+        return v
+
+    def filler(self):
+        r = self.r
+        return copy.deepcopy(r.choice([{'t': 'int'}, {'t': 'str'}, {'t': 'seq', 'k': 'list', 'e': {'t': 'int'}}, {'t': 'opt', 'e': {'t': 'str'}},
+                                       {'t': 'dict', 'k': 'dict', 'kt': {'t': 'str'}, 'vt': {'t': 'int'}}, {'t': 'float'}, {'t': 'bool'}]))
+
+    def wrap(self, ctx, inner):
+        r = self.r
+        if ctx in ('td', 'tdopt') and r.random() < 0.5:
+            i = self.fresh()
+            nreq, nopt = r.choice([(0, 1), (1, 0), (2, 2), (0, 3), (3, 0), (1, 2), (2, 1), (1, 1)])
+            at_opt = (ctx == 'tdopt' and nopt > 0) or nreq == 0
+            ns = self.names(nreq + nopt)
+            req = [[n, self.filler()] for n in ns[:nreq]]
+            opt = [[n, self.filler()] for n in ns[nreq:]]
+            if at_opt:
+                o = inner if inner['t'] in ('opt', 'none', 'any', 'union') or r.random() < 0.5 else {'t': 'opt', 'e': inner}
+                opt[r.randrange(nopt)][1] = o
+            else:
+                req[r.randrange(nreq)][1] = inner
+            return {'t': 'td', 'id': i, 'name': 'D%d' % i, 'req': req, 'opt': opt, 'opt_p': r.choice([0.0, 0.5, 0.9, 1.0]),
+                    'total': r.random() < 0.5}
+        if ctx in ('tagunion', 'autotagunion') and r.random() < 0.5:
+            nd = r.choice([1, 2, 3, 4])
+            auto = ctx == 'autotagunion'
+            at = r.randrange(nd)
+            es = []
+            for j in range(nd):
+                i = self.fresh()
+                nf = r.choice([1, 2, 3])
+                ns = self.names(nf)
+                fields = [{'name': n, 'ty': self.filler(), 'alias': None, 'default': None} for n in ns]
+                if j == at:
+                    fields[r.randrange(nf)]['ty'] = inner
+                k = {'t': 'data', 'id': i, 'name': 'K%d' % i, 'tag': None, 'fields': fields}
+                if auto and r.random() < 0.7:
+                    k['auto_tag'] = True
+                else:
+                    k['tag'] = r.choice(['tag-%d', 'T%d', '%d', 'K%d', 'k %d']) % i      # distinct per class id, never empty
+                es.append(k)
+            if auto and not any(e.get('auto_tag') for e in es):
+                es[0]['tag'] = None; es[0]['auto_tag'] = True
+            es += [copy.deepcopy(o) for o in r.sample([{'t': 'int'}, {'t': 'str'}, {'t': 'none'}, {'t': 'seq', 'k': 'list', 'e': {'t': 'int'}},
+                                                       {'t': 'float'}, {'t': 'bool'}], r.choice([0, 1, 2]))]
+            r.shuffle(es)
+            if len(es) == 2 and es[0]['t'] == 'none':
+                es.reverse()                      # Union[None, X]: F55, outside union_ok
+            if len(es) == 1:
+                es.append({'t': 'int'})
+            return {'t': 'union', 'es': es}
+        return Gen.wrap(self, ctx, inner)
+
+
+def has_anyw(v):
+    if isinstance(v, dict):
+        return bool(v.get('anyw')) or any(has_anyw(x) for x in v.values())
+    if isinstance(v, list):
+        return any(has_anyw(x) for x in v)
+    return False
+
+
+def has_tagged(ty):
+    if ty['t'] == 'data' and (ty.get('tag') is not None or ty.get('auto_tag')): return True
+    subs = [ty[k] for k in ('e', 'kt', 'vt') if k in ty] + list(ty.get('es', []))
+    subs += [f['ty'] if isinstance(f, dict) else f[1] for f in ty.get('fields', [])]
+    subs += [ft for _, ft in ty.get('req', []) + ty.get('opt', [])]
+    return any(has_tagged(x) for x in subs)
+
+
+TAG_KEYS = ['$type', 'the-kind', '@class', 'tag key']      # never the dumped spelling of a generated field name
+
+
 def make_cases(ctx):
     cases = []
     r = ctx.sub_rng('sys')
-    g = Gen(r, {'neg_timedelta': True, 'nonfinite': False, 'odd_offsets': True, 'ext_names': 0.3, 'wild_names': 0.1, 'us_runs': 0.08, 'same_named_enums': 0.3, 'name_families': 0.3, 'spellings': 0.3, 'no_nonefirst': True})   # sub-minute UTC offsets (repaired F43) stay in
+    g = Gen01(r, {'neg_timedelta': True, 'nonfinite': False, 'odd_offsets': True, 'ext_names': 0.3, 'wild_names': 0.1, 'us_runs': 0.08, 'same_named_enums': 0.3, 'name_families': 0.3, 'spellings': 0.3, 'no_nonefirst': True})   # sub-minute UTC offsets (repaired F43) stay in
     items = systematic_types(g, 2 if ctx.tier == 'quick' else 3, leaves=C01_LEAVES)
     if ctx.tier != 'quick':
         d3 = [it for it in items if it[0].count('<') == 2]
@@ -172,7 +298,7 @@ def make_cases(ctx):
                 zi += 1
     r2 = ctx.sub_rng('rand')
     for j in range(80 if ctx.tier == 'quick' else 2000):
-        g2 = Gen(r2, {'neg_timedelta': True, 'nonfinite': r2.random() < 0.2, 'odd_offsets': r2.random() < 0.3, 'ext_names': 0.3, 'wild_names': 0.1, 'us_runs': 0.08, 'same_named_enums': 0.3, 'name_families': 0.3, 'spellings': 0.3, 'no_nonefirst': True})
+        g2 = Gen01(r2, {'neg_timedelta': True, 'nonfinite': r2.random() < 0.2, 'odd_offsets': r2.random() < 0.3, 'ext_names': 0.3, 'wild_names': 0.1, 'us_runs': 0.08, 'same_named_enums': 0.3, 'name_families': 0.3, 'spellings': 0.3, 'no_nonefirst': True})
         nf = r2.choice([1, 2, 3, 4])
         tys = []
         while len(tys) < nf:
@@ -187,8 +313,13 @@ def make_cases(ctx):
         root = g2.root(tys, names=names, bases=r2.choice(ROOTS))
         cases.append({'root': root, 'value': g2.value(root), 'cfg': {'xf': xf}, 'labels': {}, 'src': 'random'})
     rh = ctx.sub_rng('history')
+    rk = ctx.sub_rng('tagkey')
     for c in cases:
-        c['json_keys_ok'] = key_text_ok(c['root'])
+        # values at Any positions flagged 'anyw' (tuple, OrderedDict, non-str keys) round-trip through the dict level only:
+        # no text format gives them back with the same types (Coq: anyv but not json_any)
+        c['json_keys_ok'] = key_text_ok(c['root']) and not has_anyw(c['value'])
+        if has_tagged(c['root']) and rk.random() < 0.3:
+            c['cfg']['tag_key'] = rk.choice(TAG_KEYS)
         if has_auto_tag(c['root']):
             c['cfg']['auto_tags'] = True
         # history axis: members dumped alone before the owner's first dump (default key spelling only:
@@ -243,8 +374,9 @@ def run(ctx):
         if 'coq_v' not in res or 'tbl' not in res:
             continue
         lets = ''.join('let %s := %s in ' % (n, t) for n, t in res['lets'])
-        dc = '(mkCfg %s DtIso (S "__tag__"))' % XF[eff_xf(c)]
-        lc = '(mkL (S "__tag__"))'
+        tk = rt_cstr(c['cfg'].get('tag_key') or '__tag__')
+        dc = '(mkCfg %s DtIso %s)' % (XF[eff_xf(c)], tk)
+        lc = '(mkL %s)' % tk
         cur_pre.append('Definition ty_%d : ty := %s%s.' % (i, lets, res['coq_t']))
         cur_pre.append('Definition val_%d : pv := %s%s.' % (i, lets, res['coq_v']))
         cur_pre.append('Definition tbl_%d : list ((pstr * pv) * option pv) := %s[%s].' % (i, lets, '; '.join(res['tbl'])))
